@@ -2,7 +2,7 @@
 From Coq Require Extraction.
 From Coq Require Import ExtrOcamlBasic.
 From SQ Require Import lib.Base.
-From SQ Require model.DcPacket model.DcMap.
+From SQ Require model.DcPacket model.DcMap model.DcKeys.
 Extraction Language OCaml.
 
 Definition sc_run := DcPacket.sc_run.
@@ -11,4 +11,6 @@ Definition pkt_run := DcPacket.pkt_run.
 Definition pkt_judge := DcPacket.pkt_judge.
 Definition map_run := DcMap.run.
 Definition map_judge := DcMap.judge.
-Extraction "../ocaml/gen/C18/model.ml" sc_run sc_judge pkt_run pkt_judge map_run map_judge.
+Definition keys_run := DcKeys.run.
+Definition keys_judge := DcKeys.judge.
+Extraction "../ocaml/gen/C18/model.ml" sc_run sc_judge pkt_run pkt_judge map_run map_judge keys_run keys_judge.
